@@ -461,7 +461,7 @@ bool genFiftyCase(Choices& c, UciCase& k) {
         base.ep = -1;
     }
     if (!ref::sane(base) || ref::legalMoves(base).empty()) return false;
-    int target = c.of(std::vector<int>{100, 100, 100, 99, 101, 104, 110, 98, 100}); // half-move clock after m (when m is reversible)
+    int target = c.of(std::vector<int>{100, 100, 100, 99, 101, 104, 110, 98, 100, 95, 91, 100}); // half-move clock after m (when m is reversible)
     int byPlay = c.chance(1, 2) ? c.range(0, 3) : c.chance(1, 2) ? c.range(4, 12) : c.chance(1, 2) ? c.range(20, 27) : 27; // cycles of 4 plies (27: the clock comes from play alone)
     int h0 = target - 1 - 4 * byPlay;
     if (h0 < 0) { byPlay = (target - 1) / 4; h0 = target - 1 - 4 * byPlay; }
